@@ -276,7 +276,7 @@ def h_latestart(params, model=None):
             svc.start(until=lambda: len(calls) >= 3, sleep=0)
             for fv in stops:
                 svc.stop(forever=fv, wait=False)
-            final = stops[-1]
+            final = any(stops)          # a final stop stays final (F46): a later non-final stop must not make the service startable again
             target, kw = captured[-1]
             try:
                 target(**kw)                      # the thread body runs now
@@ -296,13 +296,100 @@ def h_latestart(params, model=None):
                 except RuntimeError:
                     raised = True
                 if raised != final:
-                    return {"ok": False, "info": dict(info, why="start() after stop: RuntimeError iff the last stop was final")}
+                    return {"ok": False, "info": dict(info, why="start() after stop: RuntimeError iff one of the stops was final")}
                 if not raised:
                     target, kw = captured[-1]
                     target(**kw)
                     if len(calls) != 2:
                         return {"ok": False, "info": dict(info, why="restarted service did not run its work function until its condition", calls2=len(calls))}
             return {"ok": True, "key": repr((stops, restart)), "nontrivial": True}
+        finally:
+            RN.threading.Thread = real_thread
+    return fn
+
+
+def h_stopall(params, model=None):
+    """Runnable.stop_all over services in solver-chosen prior states (never started / thread body not entered yet / loop ended by its
+    until() / paused by stop(forever=False) / already finally stopped): after a final stop_all none of them calls its work function again
+    and every one of them refuses start(); after a non-final one all can be started again unless finally stopped before (seed C18-E)."""
+    RN = _rn()
+    NS = params.get("services", 2)
+
+    def fn():
+        e = Env(model)
+        pres = [e.choose("pre", 5) for _ in range(NS)]
+        forever = bool(e.choose("forever", 2))
+        wait = bool(e.choose("wait", 2))
+        captured = {}
+
+        class FakeThread:
+            def __init__(self, *a, target=None, kwargs=None, **k):
+                captured[id(getattr(target, "__self__", None))] = (target, kwargs or {})
+
+            def start(self):
+                pass
+
+            def is_alive(self):
+                return False
+
+            def join(self, timeout=None):
+                pass
+            name = "x"
+        real_thread = RN.threading.Thread
+        RN.threading.Thread = FakeThread
+        try:
+            svcs = []
+            for pre in pres:
+                calls, done = [], []
+
+                class Svc(RN.Runnable):
+                    def __init__(self, calls, done, pre):
+                        self.calls, self.dones, self.pre = calls, done, pre
+
+                    def do(self):
+                        self.calls.append(len(self.calls))
+                        if self.pre == 3 and len(self.calls) == 1:
+                            self.stop(forever=False)
+                        if self.pre == 4 and len(self.calls) == 1:
+                            self.stop(forever=True)
+
+                    def interruptable_sleep(self, secs):
+                        pass
+
+                    def done(self):
+                        self.dones.append(len(self.calls))
+                svc = Svc(calls, done, pre)
+                if pre == 1:
+                    svc.start(until=lambda c=calls: len(c) >= 3, sleep=0)
+                elif pre in (2, 3, 4):
+                    svc.run(until=lambda c=calls: len(c) >= 2, sleep=0)
+                svcs.append(svc)
+            before = [len(s.calls) for s in svcs]
+            try:
+                RN.Runnable.stop_all(svcs, forever=forever, wait=wait)
+                for s in svcs:
+                    if s.pre == 1:
+                        target, kw = captured[id(s)]
+                        target(**kw)                  # the thread body runs only now
+            except BaseException as ex:
+                if type(ex).__name__ in ("PathAbort", "Inconclusive", "Unsupported", "StepBudget"):
+                    raise
+                return {"ok": False, "info": {"why": "exception escaped stop_all()/run()", "exc": type(ex).__name__}}
+            info = {"pre": pres, "forever": forever, "wait": wait}
+            for i, s in enumerate(svcs):
+                if len(s.calls) != before[i]:
+                    return {"ok": False, "info": dict(info, why="work function called after stop_all() signalled the service", service=i)}
+                if not s.stopped and s.pre != 0:
+                    return {"ok": False, "info": dict(info, why="service not stopped after stop_all()", service=i)}
+                final = forever or s.pre == 4
+                try:
+                    s.start(until=lambda: True, sleep=0)
+                    raised = False
+                except RuntimeError:
+                    raised = True
+                if raised != final:
+                    return {"ok": False, "info": dict(info, why="start() after stop_all: RuntimeError iff a final stop reached the service", service=i)}
+            return {"ok": True, "key": repr((pres, forever, wait)), "nontrivial": True}
         finally:
             RN.threading.Thread = real_thread
     return fn
@@ -394,7 +481,7 @@ def _mut(name, inner):
     return factory
 
 
-HARNESSES = {"backoff": h_backoff, "stop": h_stop, "latestart": h_latestart, "notify": h_notify, "triples": h_triples,
+HARNESSES = {"backoff": h_backoff, "stop": h_stop, "latestart": h_latestart, "stopall": h_stopall, "notify": h_notify, "triples": h_triples,
              "backoff~no-cap": _mut("no-cap", h_backoff)}
 
 
@@ -422,6 +509,7 @@ def jobs(tier):
     ] + ([] if q else [{"harness": "backoff", "params": {"K": 6, "mults": ["1", "3/2", "2", "10"]}, "label": "backoff/K=6/mult-in-{1,1.5,2,10}"}]) + [
         {"harness": "stop", "params": {"K": 3 if q else 4}, "label": "stop/K=%d" % (3 if q else 4)},
         {"harness": "latestart", "params": {}, "label": "stop-between-start-and-thread-entry"},
+        {"harness": "stopall", "params": {"services": 2 if q else 3}, "label": "stop_all/%d-services-in-any-prior-state" % (2 if q else 3)},
         {"harness": "notify", "params": {"N": 4 if q else 6}, "label": "notify/N=%d" % (4 if q else 6)},
         {"harness": "triples", "params": {}, "label": "derived-triples"},
         {"harness": "backoff~no-cap", "params": {"K": 2}, "label": "backoff~no-cap", "role": "sens"},
@@ -437,7 +525,7 @@ def meta(tier):
                    "notifications": "N = 4 (6), any subset of raising handler calls, stop marker at any position"},
         "symbolic": ["min_backoff, max_backoff, mult_backoff: reals with 0 < min <= max, mult >= 1", "outcome of every iteration", "stop iteration/finality/origin",
                      "which handler calls raise; where the stop marker sits", "providers' default_sleep (derived triples)"],
-        "outside": ["stop()/wake()/start()/wait() racing a running loop from another thread at arbitrary points; stop_all joining real threads (real threads cannot run under a single-thread symbolic executor). One window IS explored sequentially: stop() calls placed between start() returning and the service thread entering run()",
+        "outside": ["stop()/wake()/start()/wait() racing a running loop from another thread at arbitrary points; stop_all joining real threads (real threads cannot run under a single-thread symbolic executor). Explored sequentially: stop() calls placed between start() returning and the service thread entering run(); stop_all() over services that are not running (never started, thread body not entered, loop ended by until(), paused, finally stopped)",
                     "floating-point rounding (floats are modelled as reals; replay uses exact fractions)", "long_poll.py"],
         "stubs": ["interruptable_sleep records the requested duration instead of waiting", "time.monotonic/time.sleep virtual", "threading.Thread replaced by an inert class for the start()-after-stop probe"],
         "assumptions": ["floats behave as reals", "z3 nonlinear real arithmetic is sound"],
